@@ -37,6 +37,7 @@ type sshScn struct {
 	KeyFile  string   `json:"keyfile"`  // empty | blank-lines | comments-only | one-key | several-keys
 	Key      string   `json:"key"`      // listed-ed25519 | listed-ecdsa | unlisted-ed25519 | unlisted-ecdsa | unlisted-rsa | forged-cert
 	Req      string   `json:"req"`      // exec | shell | env | subsystem | pty-req | channel:direct-tcpip
+	Prog     string   `json:"prog"`     // first word of the exec line ("" = rsync)
 	Base     []string `json:"base"`
 	Extra    []string `json:"extra"`
 	Paths    []string `json:"paths"`
@@ -217,7 +218,11 @@ func sshHandler(w *workerCtx, line []byte) (any, error) {
 	}
 	defer client.Close()
 	obs.Admitted = true
-	cmd := append([]string{"rsync"}, s.Base...)
+	prog := s.Prog
+	if prog == "" {
+		prog = "rsync"
+	}
+	cmd := append([]string{prog}, s.Base...)
 	cmd = append(cmd, s.Extra...)
 	cmd = append(cmd, s.Paths...)
 	cmdline := strings.Join(cmd, " ")
